@@ -5,6 +5,7 @@ pub mod c02;
 pub mod c03;
 pub mod c05;
 pub mod c10;
+pub mod c11;
 pub mod c16;
 pub mod c17;
 pub mod registry;
@@ -22,6 +23,7 @@ pub fn build(id: &str, tier: &str) -> Option<Check> {
         "C03" => c03::build(quick),
         "C05" => c05::build(quick),
         "C10" => c10::build(quick),
+        "C11" => c11::build(quick),
         "C12" => c12::build(quick),
         "C16" => c16::build(quick),
         "C17" => c17::build(quick),
